@@ -41,46 +41,47 @@ func tocEntries(es []Ent) []*estargz.TOCEntry {
 	return out
 }
 
-const walkBudget = 20000
-
+// walker: the harness's own traversal visits each directory id once (the path space of a cyclic graph is infinite; that
+// is the walker's problem, not the daemon's). What is asserted is that every metadata.Reader call returns and is
+// consistent. The listing (one "kind/base" item per child of every visited directory) is independent of map order.
 type walker struct {
-	mr     metadata.Reader
-	visits int
-	list   []string
-	files  []uint32
-	hang   bool
+	mr      metadata.Reader
+	visited map[uint32]bool
+	list    []string
+	files   []uint32
+	shared  bool // some directory was reached a second time (hardlink to a directory / cycle)
 }
 
-func (w *walker) walk(id uint32, p string) {
-	if w.hang {
-		return
-	}
+func (w *walker) walk(id uint32) {
+	var dirs []uint32
 	w.mr.ForeachChild(id, func(name string, cid uint32, mode os.FileMode) bool {
-		w.visits++
-		if w.visits > walkBudget {
-			w.hang = true
-			return false
-		}
-		cp := p + "/" + name
 		kind := 1
 		if mode.IsDir() {
 			kind = 0
 		}
-		w.list = append(w.list, fmt.Sprintf("%d%s", kind, cp))
+		w.list = append(w.list, fmt.Sprintf("%d/%s", kind, name))
 		// the calls the FUSE layer makes per node
 		if _, err := w.mr.GetAttr(cid); err != nil {
-			w.list = append(w.list, "attr-error"+cp)
+			w.list = append(w.list, "attr-error/"+name)
 		}
 		if id2, _, err := w.mr.GetChild(id, name); err != nil || id2 != cid {
-			w.list = append(w.list, "lookup-mismatch"+cp)
+			w.list = append(w.list, "lookup-mismatch/"+name)
 		}
 		if mode.IsDir() {
-			w.walk(cid, cp)
+			if w.visited[cid] {
+				w.shared = true
+			} else {
+				w.visited[cid] = true
+				dirs = append(dirs, cid)
+			}
 		} else if mode.IsRegular() {
 			w.files = append(w.files, cid)
 		}
-		return !w.hang
+		return true
 	})
+	for _, d := range dirs {
+		w.walk(d)
+	}
 }
 
 func probeFile(mr metadata.Reader, id uint32) {
@@ -107,11 +108,8 @@ func execTree(c Case) Obs {
 		return Obs{Class: "error", Msg: err.Error()}
 	}
 	defer mr.Close()
-	w := &walker{mr: mr}
-	w.walk(mr.RootID(), "")
-	if w.hang {
-		return Obs{Class: "timeout", Msg: fmt.Sprintf("directory walk exceeds %d visits for %d entries", walkBudget, len(c.Ops))}
-	}
+	w := &walker{mr: mr, visited: map[uint32]bool{mr.RootID(): true}}
+	w.walk(mr.RootID())
 	n := -1
 	if nn, ok := mr.(interface{ NumOfNodes() (int, error) }); ok {
 		n, _ = nn.NumOfNodes()
@@ -145,7 +143,11 @@ func execTree(c Case) Obs {
 		}
 	}
 	sort.Strings(w.list)
-	return Obs{Class: "ok", Vals: []int64{int64(n)}, List: w.list}
+	msg := ""
+	if w.shared {
+		msg = "shared-directory"
+	}
+	return Obs{Class: "ok", Vals: []int64{int64(n)}, List: w.list, Msg: msg}
 }
 
 // ---- printing: names as lists of component numbers ----
@@ -192,7 +194,7 @@ func coqTree(c Case, o Obs) string {
 			bad = true // attr-error / lookup-mismatch lines: reported by the oracle
 			continue
 		}
-		ls = append(ls, fmt.Sprintf("(%s, %c)", in.name(strings.Split(l[2:], "/")), l[0]))
+		ls = append(ls, fmt.Sprintf("(%s, %c)", in.name([]string{l[2:]}), l[0]))
 	}
 	_ = bad
 	return fmt.Sprintf("CTree %s %s %s", hx.CoqList(es), coqObs(o), hx.CoqList(ls))
@@ -296,6 +298,11 @@ func treeCorpus() []Case {
 		{Kind: "tree", Ops: []Ent{{Name: "a", Type: "hardlink", Link: "a"}}},
 		// F5: hardlink to the parent directory
 		{Kind: "tree", Ops: []Ent{{Name: "d/", Type: "dir"}, {Name: "d/l", Type: "hardlink", Link: "d"}}},
+		// two links to an ancestor directory: fan-out 2 on a cyclic directory graph (2^depth paths)
+		{Kind: "tree", Ops: []Ent{{Name: "d/", Type: "dir"}, {Name: "d/f", Type: "reg", Size: 3}, {Name: "d/e/l", Type: "hardlink", Link: "d"}, {Name: "d/e/m", Type: "hardlink", Link: "d"}}},
+		{Kind: "tree", Ops: []Ent{{Name: "d/l", Type: "hardlink", Link: "d"}}},
+		// shared directory subtrees doubling at each level
+		{Kind: "tree", Ops: shareDirs(18)},
 		// hardlink to the root / implicit ancestor
 		{Kind: "tree", Ops: []Ent{{Name: "x/y/l", Type: "hardlink", Link: "x"}}},
 		{Kind: "tree", Ops: []Ent{{Name: "x/l", Type: "hardlink", Link: ""}, {Name: "x/m", Type: "hardlink", Link: "/"}}},
@@ -320,6 +327,18 @@ func shareChain(n int) []Ent {
 		es = append(es, Ent{Name: p, Type: "reg"},
 			Ent{Name: p + "/x", Type: "hardlink", Link: fmt.Sprintf("e%d", i-1)},
 			Ent{Name: p + "/y", Type: "hardlink", Link: fmt.Sprintf("e%d", i-1)})
+	}
+	return es
+}
+
+// shareDirs: d0 a directory with a file; d(i) a directory with two hardlinks to d(i-1).
+func shareDirs(n int) []Ent {
+	es := []Ent{{Name: "d0/", Type: "dir"}, {Name: "d0/f", Type: "reg", Size: 1}}
+	for i := 1; i <= n; i++ {
+		p := fmt.Sprintf("d%d", i)
+		es = append(es, Ent{Name: p, Type: "dir"},
+			Ent{Name: p + "/x", Type: "hardlink", Link: fmt.Sprintf("d%d", i-1)},
+			Ent{Name: p + "/y", Type: "hardlink", Link: fmt.Sprintf("d%d", i-1)})
 	}
 	return es
 }
